@@ -5,6 +5,6 @@ from engines.symvc.discharge import run_spec
 def run(ctx):
     ctx.assume("isotropic phases with K_i > 0, mu_i > 0, fractions >= 0 summing to one (the last fraction is 1 minus the others); space dimension 3",
                "Voigt and Reuss estimates of the isotropic moduli are the arithmetic and harmonic means (written in the spec: the tensor-valued computeVoigtStiffness / computeReussStiffness go through a 6x6 inversion and are not under contract)",
-               "bounded in the number of phases: 2 (quick), 3 (thorough, may be undecided within the solver budget); 4-5 phases, spheroidal / ellipsoidal Eshelby and localisation tensors (acos/atan, numerical integration), the self-consistent iteration, PCW and oriented schemes are NOT covered",
+               "bounded in the number of phases: 2 (both tiers; the 3-phase contract is written, VERIF_EXPERIMENTAL, but its ordering obligations time out and it is NOT claimed); 3-5 phases, spheroidal / ellipsoidal Eshelby and localisation tensors (acos/atan, numerical integration), the self-consistent iteration, PCW and oriented schemes are NOT covered",
                "Mori-Tanaka with the softest / stiffest matrix = Hashin-Shtrikman lower / upper bound is written (specs/C25/e2.cxx, VERIF_EXPERIMENTAL) but NOT claimed: the bulk-modulus identity and two denominator obligations stay undecided within the solver budget")
     run_spec(ctx, flags="-DVERIF_THOROUGH" if ctx.thorough else "", expect_min=6, per_timeout=900 if ctx.thorough else 60)
